@@ -367,6 +367,22 @@ Definition stored_encoding (mixed has_alpha : bool) : encoding :=
 Definition encoding_eqb (a b : encoding) : bool :=
   match a, b with EncPNG, EncPNG | EncJPEG, EncJPEG => true | _, _ => false end.
 
+(* img_to_buf (image/__init__.py:347-368), the number of colours the encoder quantises to: image_opts.colors, or 255
+   when that is None, globals.image.paletted of the base configuration in force is set and the format ends with png;
+   format mixed without transparency (JPEG) resets it.  The image is quantised (stored with a palette, PNG mode P) when
+   the number is set and not 0.  The result is a function of the image options, the base configuration of the request
+   and the image only: it does not depend on which creator (request thread or pool worker) encodes the tile. *)
+Definition encode_colors (colors : option Z) (paletted png mixed has_alpha : bool) : option Z :=
+  let colors := match colors with
+                | None => if paletted && png then Some 255 else None
+                | Some c => Some c
+                end in
+  if mixed && negb has_alpha then None else colors.
+Definition quantises (c : option Z) : bool :=
+  match c with Some c => negb (c =? 0) | None => false end.
+Definition stored_with_palette (colors : option Z) (paletted png mixed has_alpha : bool) : bool :=
+  quantises (encode_colors colors paletted png mixed has_alpha).
+
 (* ---- comparison helpers for the correspondence *)
 Definition Z2_eqb (a b : Z * Z) : bool := (fst a =? fst b) && (snd a =? snd b).
 Definition pat_item_eqb (a b : option coord * (Z * Z)) : bool :=
